@@ -455,7 +455,43 @@ def to_token_stream(I, a, n):
                 chars += [ord(c) for c in " :: "]
             chars += list(sg.fields[0].s.chars)
         return SynTokens([], None, RString(chars))
+    if isinstance(v, (Agg, EnumV)) and v.ty.split("::")[-1] in ("Attribute", "Meta"):
+        return SynTokens([], None, RString(attr_token_chars(I, v)))
     return Opaque("TokenStream", "<tokens>")
+
+
+def attr_token_chars(I, v):
+    """proc_macro2's rendering of an attribute / meta: `# [path (tokens)]`, `path = lit`"""
+    L = I.prog.layout
+    tn = v.ty.split("::")[-1]
+    if tn == "Attribute":
+        meta = v.fields[L.syn_structs["Attribute"].index("meta")]
+        return [ord(c) for c in "# ["] + attr_token_chars(I, meta) + [ord("]")]
+    kind = L.syn_enums["Meta"][v.variant]
+    def path_chars(p):
+        t = to_token_stream(I, [p], "<syn::Path as quote::ToTokens>::to_token_stream")
+        return list(t.text.chars)
+    if kind == "Path":
+        return path_chars(v.fields[0])
+    inner = v.fields[0]
+    if kind == "List":
+        ml = L.syn_structs["MetaList"]
+        toks = unbox(inner.fields[ml.index("tokens")])
+        text = toks.text if isinstance(toks, SynTokens) else ""
+        tchars = list(text.chars) if isinstance(text, RString) else [ord(c) for c in text]
+        return path_chars(inner.fields[ml.index("path")]) + [ord(c) for c in " ("] + tchars + [ord(")")]
+    nv = L.syn_structs["MetaNameValue"]
+    val = unbox(inner.fields[nv.index("value")])
+    vt = []
+    try:
+        lit = unbox(unbox(val.fields[0]).fields[L.syn_structs["ExprLit"].index("lit")])
+        if isinstance(lit, SynLitStr):
+            vt = [34] + list(lit.s.chars) + [34]
+        elif isinstance(lit, SynLitInt):
+            vt = [ord(c) for c in str(lit.digits) + str(lit.suffix)]
+    except Exception:
+        vt = [ord(c) for c in "<expr>"]
+    return path_chars(inner.fields[nv.index("path")]) + [ord(c) for c in " = "] + vt
 
 
 @model(r"^<proc_macro2::TokenStream as std::string::ToString>::to_string$")
